@@ -127,6 +127,11 @@ struct Scenario {
     /// the bounds steer the validation cache and must never stretch a verdict past its signature
     #[serde(default)]
     cache_bounds: Option<(u32, u32)>,
+    /// the key-signing key (the trust anchor) carries the REVOKE bit, consistently: published
+    /// flags 385, key tag computed over them (RFC 5011 2.1: such a key must not be used to
+    /// authenticate anything but its own revocation)
+    #[serde(default)]
+    ksk_revoked: bool,
 }
 
 const ZONE_LABELS: &[&[u8]] = &[b"a", b"B", b"zone", b"Ex-1", b"COM", b"x\0y"];
@@ -254,8 +259,8 @@ fn scenario() -> impl Strategy<Value = Scenario> {
         3 => Just(None),
         1 => (prop_oneof![Just(1u32), 2u32..10, Just(60), Just(300), Just(3600)], prop_oneof![Just(0u32), Just(3600), Just(86400)]).prop_map(|(lo, extra)| Some((lo, lo + extra))),
     ];
-    (names, ttls, keys, window(), window(), now0(), any::<bool>(), prop::bool::weighted(0.85), cache_bounds).prop_map(
-        |((zone, owner_rel, foreign_owner, rdatas), (ttl, orig_extra, rrsig_ttl, dnskey_ttl), (signer, signer_flags, ksk, colliders, colliders_first, wildcard), win, kwin, now0, ages, same_kwin, cache_bounds)| {
+    (names, ttls, keys, window(), window(), now0(), any::<bool>(), prop::bool::weighted(0.85), cache_bounds, prop::bool::weighted(0.15)).prop_map(
+        |((zone, owner_rel, foreign_owner, rdatas), (ttl, orig_extra, rrsig_ttl, dnskey_ttl), (signer, signer_flags, ksk, colliders, colliders_first, wildcard), win, kwin, now0, ages, same_kwin, cache_bounds, ksk_revoked)| {
             let kwin = if same_kwin { win } else { kwin };
             let wildcard = wildcard && !owner_rel.is_empty() && foreign_owner.is_none();
             // a KSK equal to the signer makes no sense
@@ -282,6 +287,7 @@ fn scenario() -> impl Strategy<Value = Scenario> {
                 now0,
                 upstream_ages_ttl: ages,
                 cache_bounds,
+                ksk_revoked: ksk_revoked && ksk.is_some(),
             }
         },
     )
@@ -381,7 +387,7 @@ fn build(s: &Scenario) -> Genuine {
     let (anchor_key, anchor_alg, anchor_rdata) = match s.ksk {
         Some(k) => {
             let kk = key_of(k);
-            let rd = tbs_ref::dnskey_rdata(257, 3, k.alg(), &kk.dns_public_key());
+            let rd = tbs_ref::dnskey_rdata(if s.ksk_revoked { 257 | 0x0080 } else { 257 }, 3, k.alg(), &kk.dns_public_key());
             key_rdatas.push(rd.clone());
             (kk, k.alg(), rd)
         }
@@ -1034,7 +1040,7 @@ fn run(c: &Case, rec: &mut Rec) -> CaseResult {
     let layout_supported = (s.ksk.is_none() && s.colliders == 0) || (s.zone.labels.is_empty() && s.colliders <= 1);
     let key_usable = s.signer_flags & 0x0100 != 0 && s.signer_flags & 0x0080 == 0;
     rec.class(format!("alg:{}", s.signer.alg()));
-    rec.class(if s.ksk.is_some() { "keys:ksk+zsk" } else { "keys:csk" });
+    rec.class(if s.ksk_revoked { "keys:revoked-ksk+zsk" } else if s.ksk.is_some() { "keys:ksk+zsk" } else { "keys:csk" });
     if s.colliders > 0 {
         rec.class("keys:tag-collisions");
     }
@@ -1355,6 +1361,7 @@ fn fixed_scenarios() -> Vec<Scenario> {
         now0: 1_700_000_000,
         upstream_ages_ttl: false,
         cache_bounds: None,
+        ksk_revoked: false,
     };
     vec![
         base.clone(),
